@@ -458,7 +458,7 @@ package object
 // (KF-55 fixed: the proxy of a value of another struct type was returned as it was).
 //@ func (*StructConverter).To
 //@ props C08 C05
-//@ trusted except C08.struct.to.type
+//@ trusted except C08.struct.to.type C08.struct.to.nonnil
 //@ assume[args.wf] c != nil && obj != nil && ref(obj) != nil
 // C05: the loop over the script map visits the keys in Go's random order; the outcome does not depend on it because
 // every key sets the field of its own name - the name handed to FieldByName is the key itself, so two keys never write
@@ -467,6 +467,11 @@ package object
 //@ callpre[C08.struct.set.assignable] Set: assignable(arg0, recv)
 //@ callpre[C08.struct.deref.valid] Interface: rvalid(recv)
 //@ ensures[C08.struct.to.type] typeof(obj) == *Proxy && err == nil ==> result0 != nil && uf("rt.assignable", bool, uf("go.typeof", reflect.Type, result0), c.typ)
+// What the converter accepts arrives as a struct or a pointer to one - never as an untyped nil without an error: the
+// callers (Proxy.SetAttr, the map case above) read a nil result as "zero the field", and a struct-valued field is
+// registered through its pointer type, so accepting the script's nil there silently wipes a nested struct or time.Time
+// (seed C08i added `case *NilType: return nil, nil` for pointer converters).
+//@ ensures[C08.struct.to.nonnil] err == nil && !oneof(typeof(obj), *Proxy, *Map) ==> result0 != nil
 
 // Proxy.call: a variadic method whose variadic parameter was supplied (as a list, converted to a slice) is invoked
 // with CallSlice, never with Call (KF-56 fixed).
